@@ -292,7 +292,7 @@ func genC04(c *Ctx) {
 	withOracle(c, (*oracleState).c04, genSeq)
 	// concurrency on one fid number: a request using a fid while its Tclunk is completing, and the
 	// number reused afterwards (the table is replayed on G9.FidLife)
-	genFidTable(c, "C04", []string{"dying-reuse", "mixed"}, c.scale(40, 1500))
+	genFidTable(c, "C04", []string{"dying-reuse", "mixed", "newfid-twice"}, c.scale(45, 1500))
 }
 
 func genSeq(c *Ctx) {
